@@ -33,6 +33,26 @@ def run(ctx):
     r3_reservoir_index(ctx)
     r4_consumers(ctx)
     r6_generator_ownership(ctx)
+    r7_pickled_seed(ctx)
+
+
+def r7_pickled_seed(ctx, rule="C05.R7"):
+    """'the same stream regardless of the process it runs in': a generator that travels to another process is rebuilt by CobaRandom(<args of __reduce__>)."""
+    ctx.rule(rule, "a pickled / deep-copied CobaRandom is rebuilt from the seed it was given: __reduce__ hands the constructor `self._seed` itself (no arithmetic on it), and "
+                   "__init__ binds self._seed exactly once to the (normalised) seed the stream is started from")
+    red = ctx.fn(RND, "CobaRandom.__reduce__")
+    init = ctx.fn(RND, "CobaRandom.__init__")
+    rets = [r.value for r in walk_shallow(red) if isinstance(r, ast.Return) and isinstance(r.value, ast.Tuple) and len(r.value.elts) >= 2]
+    ctx.floor(rule, "returns of CobaRandom.__reduce__", len(rets), 1)
+    binds = [st for st in walk_shallow(init) if isinstance(st, ast.Assign) and any(is_self_attr(t, "_seed") for t in st.targets)]
+    SEEDP = init.args.args[1].arg
+    starts = [c for c in ast.walk(init) if isinstance(c, ast.Call) and call_tail(c) == "_next_uniform"]
+    same = len(binds) == 1 and isinstance(binds[0].value, ast.Name) and binds[0].value.id == SEEDP and bool(starts) and all(any(isinstance(a, ast.Name) and a.id == SEEDP for a in c.args) for c in starts)
+    ctx.ob(rule, RND, "CobaRandom.__init__", binds[0] if binds else init, "self._seed is the seed the uniform stream is started from", same, stmt="seed kept")
+    for v in rets:
+        args = v.elts[1]
+        ok = isinstance(args, ast.Tuple) and len(args.elts) >= 1 and is_self_attr(args.elts[0], "_seed")
+        ctx.ob(rule, RND, "CobaRandom.__reduce__", v, "the constructor argument on unpickling is self._seed, untouched", ok, detail={"args": unparse(args)})
 
 
 # ------------------------------------------------------------------------------------------ R1
@@ -812,6 +832,7 @@ def r6_generator_ownership(ctx, rule="C05.R6"):
 
 
 CONTROLS = [
+    ("pickled generators keep the low 20 bits of the seed", RND, M.replace_expr("CobaRandom.__reduce__", "(self._seed,)", "(self._seed % 2 ** 20,)"), "C05.R7"),
     ("PMFPredictor reports the weight of the first equal action", "coba/learners/utilities.py", M.replace_stmt("PMFPredictor.predict", lambda st: isinstance(st, ast.Return),
         "pmf = self._pmfcall(context, actions)\naction = self._pmfrng.choice(actions, pmf)\nreturn (action, pmf[actions.index(action)])"), "C05.R4"),
     ("float predecessor by scaling", RND, M.replace_stmt("_next_below", lambda st: isinstance(st, ast.Return) and "unpack" in ast.unparse(st), "return x * (1 - 2 ** (-53))"), "C05.R3"),
